@@ -62,6 +62,19 @@ class World:
             from mirsmt.sym import TailCall
             return TailCall(args[1], [cur])
 
+        def m_data_with(eng, ctx, f, path, args, dty):
+            cellp = args[0]
+            while isinstance(cellp, Ptr) and isinstance(eng.load_ptr(ctx, cellp), Ptr):
+                cellp = eng.load_ptr(ctx, cellp)
+            cur = eng.load_ptr(ctx, cellp)
+            if not (isinstance(cur, Native) and cur.kind == "lvec"):
+                raise sym.Unsupported(f"data_with on {cur}")
+            from mirsmt.sym import TailCall
+            return TailCall(args[1], [cur])
+
+        def m_str_eq(eng, ctx, f, path, args, dty):
+            return MC.key_eq(eng, ctx, args[0], args[1])
+
         def m_slice_iter(eng, ctx, f, path, args, dty):
             v = MC.load(eng, ctx, args[0])
             if isinstance(v, Native) and v.kind == "lvec":
@@ -93,7 +106,9 @@ class World:
         self.models.update({
             r"get_or_create_counter$": m_get_or_create("Counter"), r"get_or_create_gauge$": m_get_or_create("Gauge"), r"get_or_create_histogram$": m_get_or_create("Histogram"),
             r"get_counter_handles$": m_handles("Counter"), r"get_gauge_handles$": m_handles("Gauge"), r"get_histogram_handles$": m_handles("Histogram"),
-            r"AtomicBucket::clear_with$": m_clear_with,
+            r"AtomicBucket::clear_with$": m_clear_with, r"AtomicBucket::data_with$": m_data_with,
+            r"^KeyName::as_str$|^String::as_str$": lambda eng, ctx, f, path, args, dty: MC.load(eng, ctx, args[0]),
+            r"^<str as PartialEq>::(eq)$|^<String as PartialEq>::eq$|^<KeyName as PartialEq>::eq$": m_str_eq,
             r"^core::slice::(.*::)?iter$": m_slice_iter, r"as Iterator>::map$": MS.m_map, r"^Vec::extend$|as Extend>::extend$": m_extend, r"^Vec::new$": lambda *a: MS.lvec(()), r"^Vec::push$": m_vec_push,
             r"^<Arc as Deref>::deref$|^<Arc as Clone>::clone$|^Arc::clone$": m_deref_arc,
             r"^<Key as Clone>::clone$|as ToOwned>::to_owned$|as ToString>::to_string$|as Into>::into$|^<OrderedFloat as From>::from$|f64::from_bits$|as Clone>::clone$":
